@@ -20,6 +20,10 @@
 //! * C01.commit.rule    leader + AppendEntriesResponse sequences: commit' >= commit0; commit' > commit0 => the node is leader,
 //!                      log[commit'].term = current term and a majority (leader included) acknowledged an index >= commit'
 //!                      (per follower: the maximum match_index over all successful responses delivered so far); log untouched.
+//! * C01.history.delayed_ack / C01.history.delayed_snapshot  whole histories on five / three real nodes with hand-delivered messages in
+//!                      which the network DELAYS an AppendEntriesResponse across two leadership changes, or a snapshot answer while the
+//!                      follower catches up: no two nodes report different entries committed at one position, a committed position is on
+//!                      a majority of the logs, every later leader's log holds every entry reported committed.
 //! * C01.leader.quorum  candidate + RequestVoteResponse sequences: Candidate -> Leader only when a majority (self included) of
 //!                      DISTINCT members granted a vote carrying the candidate's current term.
 use crate::fw::{Report, Rng, Tier};
@@ -389,7 +393,7 @@ impl Cluster {
 fn delayed_ack_history(stale_len: usize, mid_len: usize, new_len: usize, deliver_at: u8) -> Result<(bool, String), String> {
     let mut cl = Cluster::new(5);
     let (a, b, c, d, e) = (0usize, 1usize, 2usize, 3usize, 4usize);
-    let mut check = |cl: &Cluster, at: &str| cl.safety().map_err(|m| format!("after {at}: {m} | history: {}", cl.trace.join(" ; ")));
+    let check = |cl: &Cluster, at: &str| cl.safety().map_err(|m| format!("after {at}: {m} | history: {}", cl.trace.join(" ; ")));
     if !cl.elect(a, &[b, c]) { return Err(format!("setup: a not elected | {}", cl.trace.join(" ; "))); }
     cl.replicate(a, b, false); cl.replicate(a, c, false);            // heartbeats: the leader learns that a quorum answers
     if !cl.propose(a, stale_len) { return Err(format!("setup: propose refused | {}", cl.trace.join(" ; "))); }
@@ -502,7 +506,7 @@ pub fn run(tier: Tier, seed: u64) -> Report {
     let thorough = tier == Tier::Thorough;
     let (maxlen, maxterm, fmax, n_rv) = if thorough { (4usize, 4u64, 5u64, 5usize) } else { (3, 3, 4, 3) };
     let rep = Report::new("c01_handlers",
-        &format!("{n_rv}-node cluster (5-node for the quorum sequences), own term 0..={maxterm}, voted_for in {{None,b,c}}, own log = every term-monotone sequence of length <= {maxlen} over terms 1..={maxterm} with last term <= own term, commit0 in 0..=len, role follower/leader/candidate; RequestVote: term, last_log_index, last_log_term over 0..={fmax} x candidate {{b,c}} x 8 configs (pre-vote, fast-path, geometric tie-break on/off; state embeddings none/equal/opposite) + a second request of the other candidate with the best log; AppendEntries: term, prev_log_index, prev_log_term, leader_commit over 0..={fmax} x every term-monotone contiguous run of <= 2 entries over terms 1..={maxterm}, fast-path on/off, block embedding none/some; leader: every sequence of <= 2 AppendEntriesResponse (from b/c, term 0..={fmax}, success/failure, match_index 0..={fmax}) on 3 nodes and every sequence of <= 3 successful responses on 5 nodes; candidate: every sequence of <= 3 RequestVoteResponse on 3 and 5 nodes; PreVote/TimeoutNow for term monotonicity{}",
+        &format!("{n_rv}-node cluster (5-node for the quorum sequences), own term 0..={maxterm}, voted_for in {{None,b,c}}, own log = every term-monotone sequence of length <= {maxlen} over terms 1..={maxterm} with last term <= own term, commit0 in 0..=len, role follower/leader/candidate; RequestVote: term, last_log_index, last_log_term over 0..={fmax} x candidate {{b,c}} x 8 configs (pre-vote, fast-path, geometric tie-break on/off; state embeddings none/equal/opposite) + a second request of the other candidate with the best log; AppendEntries: term, prev_log_index, prev_log_term, leader_commit over 0..={fmax} x every term-monotone contiguous run of <= 2 entries over terms 1..={maxterm}, fast-path on/off, block embedding none/some; leader: every sequence of <= 2 AppendEntriesResponse (from b/c, term 0..={fmax}, success/failure, match_index 0..={fmax}) on 3 nodes and every sequence of <= 3 successful responses on 5 nodes; candidate: every sequence of <= 3 RequestVoteResponse on 3 and 5 nodes; PreVote/TimeoutNow for term monotonicity; cluster histories: delayed AppendEntriesResponse on 5 nodes (stale / overwriting / new entry counts in {{1,2,4}} (thorough 1..=5) x delivery at 4 points), delayed snapshot answer on 3 nodes (1..=2 (thorough 3) entries before and after the snapshot x 2 delivery points){}",
                  if thorough { "; plus 200000 seeded random single calls with u64 extremes (not exhaustive)" } else { "" }),
         true, &["tensor_chain::RaftNode::with_state", "handle_message", "become_leader", "start_election", "save_to_store", "load_from_store", "commit_index", "state"]);
     let mut cx = Ctx { rep, store: TensorStore::new(), flags: vec![], skipped: 0, cache: None };
